@@ -113,3 +113,15 @@ PROPS["C14"] = {
         {"name": "hash-w64", "world": "W64", "src": "props/C14_hash.c"},
     ],
 }
+
+PROPS["C19"] = {
+    "level": "model_checking",
+    "technique": "explicit-state exploration: every try/throw/rethrow/catch/finally program up to a size and nesting bound executed with the real macros from three initial contexts and compared event by event with a reference interpreter of structured-exception semantics; every history of parameter selections up to depth 2/3 with a fresh-library differential oracle; every interleaving of per-thread API steps under a cooperative scheduler plus a free-running ThreadSanitizer pass",
+    "level_text": "(a) all programs over {mark, throw, rethrow, get_code, TRY/CATCH_ANY|CATCH(var)[/FINALLY]} with <= 5 (quick) / <= 7 (thorough) statements and nesting <= 3/4, each from a pristine context, after a throw outside any block, and inside an enclosing block; the real RLC_TRY/RLC_CATCH/RLC_FINALLY/RLC_THROW macros run in one C function per TRY node so that longjmp crosses real frames; trace, handler chain and sticky code must equal the model. (b,c) contexts and re-parameterisation: every ordered history of parameter selections is followed by an observation battery whose hash must equal that of a freshly initialised library with only the last selection. (d) threads: all interleavings of two/three threads at API-step granularity in the MULTI=PTHREAD build; each thread's observations must equal its solo run; TSan pass free-running.",
+    "level_note": "Trusted: the reference interpreter (40 lines) encodes the property's semantics with relic's documented order (finaliser before handler). Not reached: instruction-level interleavings (covered by a static scan for writable non-TLS globals and by TSan); lexical nesting of several TRY blocks in one function is exercised by the sub-check only up to depth 3.",
+    "rule": "cases are (program text, initial context) resp. (selection history) resp. (schedule); enumerated by a generator over the grammar / odometers; distinct by 64-bit hash; states = programs x contexts; transitions = model statements executed (each compared with the implementation trace).",
+    "assumptions": ["structured-exception semantics as stated in the property with finaliser-before-handler order", "CHECK and VERBS on (shipped)"],
+    "jobs": [
+        {"name": "err-w64", "world": "W64", "src": "props/C19_err.c"},
+    ],
+}
